@@ -120,7 +120,25 @@ def setup(concepts, spec):
     POOL = common.Pool(5)
 
 
+def repeated_exh(tier, seed):
+    """Every (thorough) / a sample of (quick) the 4x3 and 3x3 boolean tables with each row repeated
+    260-300 times: the structure of a tiny table on extents of hundreds of objects."""
+    import itertools
+    import random as _r
+    rng = _r.Random(f'{seed}/repeated-exh')
+    tables = list(itertools.product(range(8), repeat=4)) + list(itertools.product(range(8), repeat=3))
+    if tier == 'quick':
+        tables = rng.sample(tables, 420)
+    for k, t in enumerate(tables):
+        rows = []
+        for r in t:
+            rows += [r] * rng.randint(260, 300)
+        yield gen.case('REPEATED-EXH', rows, 3, gen.SCHEMES[k % 5], rng)
+
+
 def cases(tier, seed, spec):
+    yield from repeated_exh(tier, seed)
+    yield from gen.repeated(seed, 40 if tier == 'quick' else 400)
     yield from gen.biglat(tier)
     yield from gen.ctx_stream(tier, seed)
 
